@@ -32,11 +32,7 @@ Theorem C16_exactly_dead : ∀ C inp nodes ord C' removed,
   closed (c_g C) → ¬ has_cycle (c_g C) → bbin_sinks (c_g C) → sources_undriven (c_g C) →
   remove_unloaded C inp nodes ord = Ok (C', removed) →
   ∀ n, n ∈ removed ↔ ∃ i, c_g C !! n = Some i ∧ removable (c_g C) inp n i.
-Proof.
-  intros C inp nodes ord C' removed Hc Hac Hs Hu Hr n.
-  destruct (C16_remove_unloaded _ _ _ _ _ _ Hc Hs Hr) as (_ & Hsound & Hcompl & _).
-  split; [apply Hsound|]. intros (i & Hi & Hrm). by eapply Hcompl.
-Qed.
+Proof. exact (remove_unloaded_exact gen_ru_tables C16_tables_ok). Qed.
 Print Assumptions C16_exactly_dead.
 
 (* the call never fails on a typed graph, whatever the orders (no exception, fuel size c suffices) *)
